@@ -63,13 +63,19 @@ def shard_main(argv):
     assert_repo_import()
     oracle = load_oracle(prop)
     ctx = monitor.Ctx(prop, seed, tier)
+    from . import probes
+
+    probes.coverage_start(repo_path())
     if hasattr(oracle, "setup"):
         oracle.setup(ctx)
     monitor.run_cases(oracle, ctx, range(lo, hi))
     if hasattr(oracle, "teardown"):
         oracle.teardown(ctx)
+    d = ctx.dump()
+    d["reach"] = probes.coverage_hits()
+    d["probe_errors"] = probes.ERRORS[:5]
     with open(out, "w") as fh:
-        json.dump(ctx.dump(), fh)
+        json.dump(d, fh)
     return 0
 
 
@@ -132,6 +138,11 @@ def run_property(prop, tier, seed, replay=None):
         shutil.rmtree(tmpd, ignore_errors=True)
 
     m = monitor.merge(dumps)
+    reach = set()
+    for d in dumps:
+        reach.update((f, l) for f, l in d.get("reach", []))
+    m["reach"] = reach
+    m["probe_errors"] = [e for d in dumps for e in d.get("probe_errors", [])][:5]
     # --- three-valued discipline: deciding monitors must have been evaluated -----------
     for name in getattr(oracle, "DECIDING", []):
         if m["monitors"].get(name, 0) == 0:
@@ -199,6 +210,34 @@ def run_property(prop, tier, seed, replay=None):
     return rc
 
 
+def reach_report(prop, reach):
+    """per anchored file: executed / executable lines, and the functions never entered"""
+    from . import probes
+
+    files = []
+    try:
+        with open(os.path.join(VERIF, "properties.jsonl")) as fh:
+            for ln in fh:
+                p = json.loads(ln)
+                if p["id"] == prop:
+                    files = p["anchors"]["files"]
+    except Exception:
+        pass
+    by_file = {}
+    for f, l in reach:
+        by_file.setdefault(f, set()).add(l)
+    rep = {}
+    for f in files:
+        path = os.path.join(repo_path(), f)
+        if not os.path.exists(path):
+            continue
+        ex = probes.executable_lines(path)
+        hit = by_file.get(f, set()) & ex
+        never = [q for q, a, b in probes.functions_in(path) if not any(a < l <= b for l in by_file.get(f, set()))]
+        rep[f] = {"lines_executed": len(hit), "lines_executable": len(ex), "functions_never_entered": never[:40]}
+    return rep
+
+
 def _pick(viols, mechs, per=3, cap=30):
     out, cnt = [], {}
     for v in viols:
@@ -224,6 +263,8 @@ def write_evidence(prop, tier, seed, oracle, m, known_hit, unknown, inconclusive
         "inconclusive_cases": dict(m["inconclusive"]),
         "notes": dict(m["notes"]),
         "exhaustive": bool(getattr(oracle, "EXHAUSTIVE", {}).get(tier, False)),
+        "library_reach": reach_report(prop, m.get("reach", set())),
+        "probe_errors": m.get("probe_errors", []),
     }
     ev = {
         "property_id": prop,
